@@ -266,6 +266,9 @@ def run_builder_xi(spec, props):
     fn = spec["fn"]
     n = spec["n"]; es = [tuple(e) for e in spec["edges"]]
     G = gr.mk(n, es)
+    if spec.get("directed"):
+        # a directed contact network: u can infect v only along an edge u->v of G
+        G = nx.DiGraph(); G.add_nodes_from(range(n)); G.add_edges_from(es)
     nodes = list(range(n))
     xi = {u: 10 + u for u in nodes}
     zeta = {u: 20 + u for u in nodes}
@@ -528,6 +531,11 @@ def specs_c17(tier):
                 out.append(dict(kind="xi", fn=fn, n=n, edges=es, container="dict", homogeneous=True))
                 for rt in ("npbool", "int"):
                     out.append(dict(kind="xi", fn=fn, n=n, edges=es, container="dict", rule_returns=rt))
+        if n <= 3:
+            # the same shapes read as directed contact networks (edges as listed, plus one with a reciprocated pair)
+            for des in ([es] + ([es + [(es[0][1], es[0][0])]] if es and es[0][0] != es[0][1] else [])):
+                for fn in ("nonMarkov_directed_percolate_network", "estimate_nonMarkov_SIR_prob_size"):
+                    out.append(dict(kind="xi", fn=fn, n=n, edges=des, container="dict", directed=True))
         m = [0, 1, "inf"] if len(es) >= 3 else [0, 1, 2, "inf"]
         out.append(dict(kind="timing", fn="estimate_nonMarkov_SIR_prob_size_with_timing", n=n, edges=es, menu=m if n <= 3 else [1, 2]))
         out.append(dict(kind="markov", fn="estimate_directed_SIR_prob_size", n=n, edges=es, tau=0.3, gamma=0.7, menu=[0.5, 1.6]))
